@@ -158,7 +158,7 @@ ParameterList ParameterList::createSubList(const std::vector<size_t>& parameters
   for (auto iparam : parameters)
   {
     if (iparam < size())
-      pl.parameters_.push_back(shared_ptr<Parameter>(parameters_[iparam]->clone()));
+      pl.addParameter(*parameters_[iparam]);
   }
   return pl;
 }
